@@ -434,6 +434,14 @@ theorem lazy_hooked_set_const (sd o size level : Nat) (ms : List TD) (name : Str
     removeBDLazy o size ((BLTD.hooked sd ms level).setConst name t)
       = ⟨o, ms.map (fun m => ⟨m.batch, m.names, (m.leaves.filter (fun p => p.1 != name)) ++ [(name, t)]⟩)⟩ := rfl
 
+/-- **read-compute-write through the hooks keeps the hidden stack**: `lazy.set(dst, g(lazy.get(src)))` on a lazy stack
+vmapped along its stack dimension acts on every stacked tensordict (= every sample) and the result is unwrapped by
+re-stacking at `out_dim` — the stack of the per-sample results, with no duplicated dimension (contrast
+`lazy_stackdim_derived_counterexample`) -/
+theorem lazy_hooked_get_set (sd o size level : Nat) (ms : List TD) (op : TOp) :
+    removeBDLazy o size ((BLTD.hooked sd ms level).getSet op) = ⟨o, ms.map op.run⟩ ∧
+    (LTD.dense ⟨o, ms.map op.run⟩) = stackTD (ms.map op.run) o := ⟨rfl, rfl⟩
+
 /-- what the hidden-stack path does to a function that *derives* a new stack (the known finding
 C19-lazy-stackdim-derived): vmap along the stack dimension of a stack of two tensordicts of batch []
 with `f = td.apply(...)` returns batch size [2, 2] where the per-sample loop gives [2] -/
